@@ -8,15 +8,19 @@ records of that moment (M-ECS), and no track / carry-in / recheck deletes or alt
   committed at ci; the cache only grows; `untrack --restore-versions` writes every recorded version."""
 import os, json, shutil, subprocess, re
 from concurrent.futures import ThreadPoolExecutor
-from . import common as C, repo as R, repocheck as K
+from . import common as C, repo as R, repocheck as K, repoext as X
 from .xvc import XvcRepo
 
 PATHS = ["a.txt", "d/b.txt", "d/e/c.dat", "n"]
 DESTS = {"a.txt": ["a2.txt", "d/a3.txt", "o/"], "d/b.txt": ["b2.txt", "o/"], "d/e/c.dat": ["c2.dat", "d/c3.dat"], "n": ["n2", "d/n3"]}
 CROSS = {"a.txt": "a.bin", "d/e/c.dat": "c.txt"}      # destination with another extension: class cross-ext (P3)
+# the model switch fixed_P3 (Repo/Ext.v), read from the source of the working tree on every run: with the repair the
+# class is empty (Props/C04.cross_ext_class_empty_when_fixed), nothing is suppressed and cross-extension copies AND
+# moves (of paths with several committed versions) are generated
+FIXED_P3 = False
 
 
-def gen_history(rng, n=(5, 10)):
+def gen_history(rng, n=(5, 10), fixed_p3=False):
     paths = rng.sample(PATHS, rng.randint(1, 3))
     method = rng.choice(["copy", "copy", "hardlink", "symlink"])
     items, ver = [], 0
@@ -44,7 +48,7 @@ def gen_history(rng, n=(5, 10)):
             s = rng.choice([t for t in tracked if t in DESTS] or [None])
             if s:
                 d = rng.choice(DESTS[s])
-                if rng.random() < 0.06 and s in CROSS:
+                if rng.random() < (0.3 if fixed_p3 else 0.06) and s in CROSS:
                     d = CROSS[s]
                 items.append(["copy", s, d])
                 tracked.append(d if not d.endswith("/") else d + s)
@@ -52,6 +56,8 @@ def gen_history(rng, n=(5, 10)):
             s = rng.choice([t for t in tracked if t in DESTS] or [None])
             if s:
                 d = rng.choice([x for x in DESTS[s] if not x.endswith("/")])
+                if fixed_p3 and s in CROSS and CROSS[s] not in tracked and rng.random() < 0.3:
+                    d = CROSS[s]
                 items.append(["move", s, d])
                 tracked.remove(s); tracked.append(d)
         elif k < 0.85 and tracked:
@@ -213,7 +219,7 @@ def run_history(xvc, h):
 
 
 def classify(h, kind, res):
-    if res["cross_ext"]:
+    if res["cross_ext"] and not FIXED_P3:
         return "cross-ext"
     return None
 
@@ -225,6 +231,10 @@ def run(chk, replay=None):
                        "after the history every commit xvc made is checked out, the data files are removed, `xvc file recheck` must reproduce the committed files; "
                        "non-trivial = the history made >= 3 commits and some path has >= 2 committed versions; distinct by history")
     chk.proof()
+    global FIXED_P3
+    flags = X.flags_from_source()
+    FIXED_P3 = flags[5] == "1"
+    chk.cov["model_switches"] = {"fixed_P3": FIXED_P3, "read_from": "file/src/{copy,mv,common}/mod.rs of the working tree (vlib/repoext.py flags_from_source)"}
     xvc = C.ensure_xvc()
     hs = []
     if replay:
@@ -234,10 +244,11 @@ def run(chk, replay=None):
         for f in sorted(os.listdir(cdir)) if os.path.isdir(cdir) else []:
             hs.append(json.load(open(os.path.join(cdir, f)))["input"])
         for i in range(90 if chk.tier == "quick" else 800):
-            hs.append(gen_history(chk.rng))
+            hs.append(gen_history(chk.rng, fixed_p3=FIXED_P3))
     with ThreadPoolExecutor(12) as ex:
         results = list(ex.map(lambda h: run_history(xvc, h), hs))
-    dist = {"histories": len(hs), "store_files_checked": sum(r.get("store_files", 0) for r in results), "commands": 0, "commits_checked_out": 0, "copy": 0, "move": 0, "carry": 0, "max_versions": 0, "restore_versions": 0}
+    dist = {"histories": len(hs), "store_files_checked": sum(r.get("store_files", 0) for r in results), "commands": 0, "commits_checked_out": 0, "copy": 0, "move": 0, "carry": 0, "max_versions": 0, "restore_versions": 0,
+            "cross_ext_histories": sum(1 for r in results if r["cross_ext"]), "cross_ext_histories_without_problem": sum(1 for r in results if r["cross_ext"] and not r["problems"])}
     reported = set()
     for h, res in zip(hs, results):
         nver = max([len(v) for v in res["versions"].values()] or [0])
